@@ -334,13 +334,16 @@ def _coerce_args(f):
     if not any(widths):
         return f
 
+    names = list(sig.parameters)
+
     @functools.wraps(f)
-    def g(*args):
-        args = list(args)
-        for i, w in enumerate(widths[:len(args)]):
-            if w and isinstance(args[i], TInt) and args[i].w < w:
-                args[i] = TInt(args[i].v, w)
-        return f(*args)
+    def g(*args, **kwargs):
+        ba = sig.bind(*args, **kwargs)
+        for nm, w in zip(names, widths):
+            v = ba.arguments.get(nm)
+            if w and isinstance(v, TInt) and v.w < w:
+                ba.arguments[nm] = TInt(v.v, w)
+        return f(*ba.args, **ba.kwargs)
     return g
 
 
@@ -422,10 +425,12 @@ def bits_of_value(t, v):
     return out
 
 
-def run(src, fname, arg_types, ret_type, bits):
+def run(src, fname, arg_types, ret_type, bits, extra=None):
     """Execute src's function on the argument values spelled by `bits`.
     Returns (ret_bits, wrapped) or raises Unsupported / any Python exception."""
     ns = namespace()
+    if extra:
+        ns.update(extra)
     exec(compile(src, "<c01>", "exec"), ns)
     import types as _types
     for k, v in list(ns.items()):
